@@ -455,6 +455,7 @@ func RunC18(run *vk.Run) {
 	run.Extra["truncated_panics"] = truncPanics
 	checkTCG(run, e, r)
 	checkHobGuid(run)
+	checkTdxMetadataRecord(run, r)
 	run.Exhaustive = true
 	run.Rule = "for every structure table of Abi.tla with an exported codec, every (field, boundary class) pair emitted by TLC is executed (one field off-nominal at a time) and seeded random in-range values are round-tripped: real encoding = table-driven reference encoding, exact size, decode(encode(v)) = v, out-of-range / non-zero reserved / truncated refused, extended inputs refused by the size-exact decoders, encodings independent of what the destination held; the TCG event records are checked against the grammar tables (size-prefixed parts, terminators, padding)"
 }
@@ -516,6 +517,52 @@ func minInt(a, b int) int {
 		return a
 	}
 	return b
+}
+
+// checkTdxMetadataRecord: the whole TDX metadata record (descriptor followed by its sections) decodes to
+// what was encoded and re-encodes to the same bytes, whatever the descriptor's length field says (the
+// record codec takes the section count for the number of sections; the length field is data to it) and
+// whatever follows the record in the buffer.
+func checkTdxMetadataRecord(run *vk.Run, r *rand.Rand) {
+	for count := 0; count <= 3; count++ {
+		for _, length := range []uint32{uint32(16 + 32*count), 16, 48, 0, 0xabcdef99, uint32(16 + 32*count + 8), 17} {
+			for _, pad := range []int{0, 40} {
+				md := &oabi.TDXMetadata{Header: &oabi.TDXMetadataDescriptor{Signature: oabi.TDXMetadataDescriptorMagic, Length: length, Version: oabi.TDXMetadataVersion, SectionCount: uint32(count)}}
+				for k := 0; k < count; k++ {
+					md.Sections = append(md.Sections, &oabi.TDXMetadataSection{DataOffset: r.Uint32(), DataSize: r.Uint32(), MemoryBase: oabi.EFIPhysicalAddress(r.Uint64()), MemorySize: r.Uint64(), SectionType: uint32(r.Intn(5)), Attributes: uint32(r.Intn(4))})
+				}
+				buf := bytes.Repeat([]byte{0xcc}, 16+32*count+pad)
+				what := fmt.Sprintf("TDX metadata record with %d sections, length field %#x, %d bytes after the record", count, length, pad)
+				if err := md.Put(buf); err != nil {
+					run.Violation("tdxmetadata:roundtrip", fmt.Sprintf("%s is not written: %v", what, err), nil)
+					continue
+				}
+				var back *oabi.TDXMetadata
+				_, derr := safe(func() (int, error) {
+					var e error
+					back, e = oabi.TDXMetadataFromBytes(buf)
+					return 0, e
+				})
+				run.Case(fmt.Sprintf("tdxmetadata:%d:%#x:%d", count, length, pad), true)
+				if derr != nil {
+					run.Violation("tdxmetadata:roundtrip", fmt.Sprintf("%s does not decode: %v", what, derr), nil)
+					continue
+				}
+				ok := back.Header != nil && *back.Header == *md.Header && len(back.Sections) == count
+				for k := 0; ok && k < count; k++ {
+					ok = back.Sections[k] != nil && *back.Sections[k] == *md.Sections[k]
+				}
+				if !ok {
+					run.Violation("tdxmetadata:roundtrip", fmt.Sprintf("%s decodes to another value than the one encoded (sections are silently altered)", what), nil)
+					continue
+				}
+				re := bytes.Repeat([]byte{0xcc}, len(buf))
+				if err := back.Put(re); err != nil || !bytes.Equal(re, buf) {
+					run.Violation("tdxmetadata:roundtrip", fmt.Sprintf("%s: the decoded value re-encodes to other bytes (%v)", what, err), nil)
+				}
+			}
+		}
+	}
 }
 
 // checkHobGuid: GUID extension HOBs are 8-byte aligned and carry their exact length.
